@@ -27,7 +27,7 @@ use serde::de::DeserializeOwned;
 use serde_json::{json, Value};
 use std::cell::RefCell;
 
-pub use errs::{DescribeErr, ErrParam, IfaceErr, MonErr, PlanErr};
+pub use errs::{DescribeErr, ErrParam, IfaceErr, LookupErr, MonErr, PlanErr};
 
 /// Chain-custom message used by programs that declare `sv::custom(msg=..)`.
 #[cosmwasm_schema::cw_serde]
@@ -277,7 +277,7 @@ pub fn j<T: serde::Serialize>(v: &T) -> String {
 }
 
 pub mod prelude {
-    pub use crate::errs::{DescribeErr, ErrParam, IfaceErr, MonErr, PlanErr};
+    pub use crate::errs::{DescribeErr, ErrParam, IfaceErr, LookupErr, MonErr, PlanErr};
     pub use crate::{echo_mut, echo_query, j, note_new, MyMsg, MyQuery, Pt, ReplyObs, Shape};
 }
 
